@@ -125,7 +125,7 @@ PROPS = {
         "test": "TestC06", "variant": "elem",
         "quick": {"shards": 16, "timeout": 1500},
         "thorough": {"shards": 16, "timeout": 7200,
-                     "fuzz": [{"target": "FuzzC06Compressed", "seconds": 60}, {"target": "FuzzC06Uncompressed", "seconds": 60}]},
+                     "fuzz": [{"target": "FuzzC06Compressed", "seconds": 150}, {"target": "FuzzC06Uncompressed", "seconds": 150}]},
         "rule": "byte strings for SetBytes, SetBytesUncompressed(untrusted) and common.ReadPoint (whole / chunked / data+EOF "
                 "readers): x half from {valid encoding of k*G or CRS point, its negation, x+p alias, on-curve x outside the "
                 "subgroup, off-curve x, constants 0,1,2,p-1,p,p+1,2p,2^255,2^256-1,r,(p+-1)/2, uniform, valid with one bit "
@@ -200,7 +200,7 @@ PROPS = {
         "quick": {"shards": 16, "timeout": 2400,
                   "matrix": [{"cpus": c} for c in (16, 16, 1, 3, 16, 2, 5, 16, 1, 7, 16, 4, 16, 3, 16, 1)]},
         "thorough": {"shards": 32, "timeout": 14400, "matrix": [{"cpus": c} for c in range(16, 0, -1)],
-                     "fuzz": [{"target": "FuzzC09Digits", "seconds": 90}]},
+                     "fuzz": [{"target": "FuzzC09Digits", "seconds": 150}]},
         "rule": "public path (banderwagon.Element.MultiExp, bandersnatch.MultiExp, ipa.MultiScalar): n in {0..8, every window "
                 "threshold 49,129,321,769,1793,4097,9217,20481 -2..+1, 1..300, 1..5000; thorough adds 45057, 98305, 212993, "
                 "458753}; NbTasks in {0,1,2,3,5,16,32,52,63,64,65,128,129,256,1024, uniform 0..1100}; both ScalarsMont values; "
@@ -273,7 +273,7 @@ PROPS = {
     "C17": {
         "test": "TestC17", "variant": "elem",
         "quick": {"shards": 16, "timeout": 1200},
-        "thorough": {"shards": 16, "timeout": 7200, "fuzz": [{"target": "FuzzC17Sqrt", "seconds": 90}]},
+        "thorough": {"shards": 16, "timeout": 7200, "fuzz": [{"target": "FuzzC17Sqrt", "seconds": 150}]},
         "rule": "v = g^e * u with g the published primitive 2^32-th root of unity and u of odd order, e chosen so that the "
                 "2-adic component of v has a structured discrete log: for every block position 0..3 and every byte value 0..255 "
                 "with the other blocks 0 / 0xFF / seed-dependent (enumerated completely in both tiers, for SqrtPrecomp and for "
@@ -291,7 +291,7 @@ PROPS = {
         "test": "TestC15", "variant": "fr",
         "quick": {"shards": 16, "timeout": 1800, "matrix": [{"variant": "fr"}, {"variant": "fr_noadx"}]},
         "thorough": {"shards": 32, "timeout": 14400, "matrix": [{"variant": "fr"}, {"variant": "fr_noadx"}],
-                     "fuzz": [{"target": "FuzzC15Ops", "seconds": 90}]},
+                     "fuzz": [{"target": "FuzzC15Ops", "seconds": 150}]},
         "rule": "boundary set: all 4-limb combinations of per-limb values {0,1,2^63,2^64-1,q_i-1,q_i,q_i+1} below r plus values "
                 "within +-2 of 0, r/2, r, R mod r, R^2 mod r, R^-1 mod r (raw limb patterns; the count is in "
                 "coverage.boundary_elements). FULL cross product of ordered pairs for Add, Sub, Mul, their portable generic "
@@ -336,7 +336,7 @@ PROPS = {
         "test": "TestC10", "variant": "elem",
         "quick": {"shards": 16, "timeout": 1500},
         "thorough": {"shards": 16, "timeout": 7200,
-                     "fuzz": [{"target": "FuzzC10MultiProofRead", "seconds": 60}, {"target": "FuzzC10IPAProofRead", "seconds": 60}]},
+                     "fuzz": [{"target": "FuzzC10MultiProofRead", "seconds": 150}, {"target": "FuzzC10IPAProofRead", "seconds": 150}]},
         "rule": "byte strings for MultiProof.Read (576) and IPAProof.Read (544): 17/16 valid encodings + canonical scalar, or uniform "
                 "bytes; one field replaced by {off-curve x, non-subgroup x, x+p alias, p, p-1, 2^256-1, identity, negated valid, one "
                 "flipped bit | scalar r-1, r, r+1, 2r, r+2^119, p, 2^256-1, 0}; truncation at every field boundary +-1 or anywhere; "
@@ -403,7 +403,7 @@ PROPS = {
     "C16": {
         "test": "TestC16", "variant": "elem",
         "quick": {"shards": 16, "timeout": 900},
-        "thorough": {"shards": 16, "timeout": 3600, "fuzz": [{"target": "FuzzC16Decode", "seconds": 60}]},
+        "thorough": {"shards": 16, "timeout": 3600, "fuzz": [{"target": "FuzzC16Decode", "seconds": 150}]},
         "rule": "byte strings of length 0..64 built by class (boundary values 0,1,r-1,r,r+1,2r,2^253,2^256-1,p... +-3 "
                 "in both endiannesses with zero padding/truncation, limb patterns relative to the modulus limbs {q_i-1,q_i,q_i+1,0,2^64-1,"
                 "random} (all 5^4 deterministic combinations swept), uniform, sparse, encodings of uniform scalars) plus a "
